@@ -45,7 +45,8 @@ def header_variants(tier):
            ('min_inst=4', dict(min_inst=4)), ('max_ops=4', dict(max_ops=4)), ('default_is_stmt=0', dict(default_is_stmt=0)),
            ('dirs=0', dict(dirs=())), ('dirs=3', dict(dirs=(b'/a', b'b/c', b'\xc3\xa9'))), ('files=0', dict(files=())),
            ('files=3', dict(files=((b'a.c', 0, 0, 0), (b'b.h', 1, 0x5f000000, 300), (b'c' * 70, 2, 1, (1 << 32) + 5)))),
-           ('header_slack=3', dict(slack=3))]
+           ('header_slack=3', dict(slack=3)),
+           ('files=130', dict(dirs=tuple(b'/d%d' % i for i in range(130)), files=tuple((b'f%d.c' % i, i, 100 + i, 64 + i) for i in range(130))))]
     v5base = dict(version=5, v5_dirs=[{'path': b'/comp/dir'}], v5_files=[{'path': b'a.c', 'directory_index': 0}])
     v5 = [('v5', {}), ('v5/path=line_strp', dict(dir_format=(('path', 'line_strp'),), file_format=(('path', 'line_strp'), ('directory_index', 'udata')))),
           ('v5/path=strp', dict(dir_format=(('path', 'strp'),), file_format=(('path', 'strp'), ('directory_index', 'udata')))),
@@ -62,7 +63,14 @@ def header_variants(tier):
                                v5_files=[{'path': b'a.c', 'directory_index': 0, 'timestamp': b'\x01\x02\x03'}])),
           ('v5/dirs=0,files=0', dict(v5_dirs=[], v5_files=[])), ('v5/3 files', dict(v5_dirs=[{'path': b'/d0'}, {'path': b'd1'}, {'path': b'd2'}],
                                                                                   v5_files=[{'path': b'f%d.c' % i, 'directory_index': i} for i in range(3)])),
-          ('v5/max_ops=4', dict(max_ops=4)), ('v5/address_size_field=4', dict(address_size=4))]
+          ('v5/max_ops=4', dict(max_ops=4)), ('v5/address_size_field=4', dict(address_size=4)),
+          # counts are ULEB128: 128+ entries need a second byte (a one-byte read glues the continuation byte onto the first path)
+          ('v5/dirs=130', dict(v5_dirs=[{'path': b'/d%03d' % i} for i in range(130)], v5_files=[{'path': b'a.c', 'directory_index': 129}, {'path': b'b.c', 'directory_index': 0}])),
+          ('v5/files=300', dict(v5_dirs=[{'path': b'/d0'}, {'path': b'd1'}], v5_files=[{'path': b'f%d.c' % i, 'directory_index': i % 2} for i in range(300)])),
+          ('v5/formats=3+4', dict(dir_format=(('path', 'string'), ('timestamp', 'udata'), ('size', 'udata')),
+                                  v5_dirs=[{'path': b'/d0', 'timestamp': 200, 'size': 0x4000}],
+                                  file_format=(('path', 'string'), ('directory_index', 'udata'), ('timestamp', 'udata'), ('size', 'udata')),
+                                  v5_files=[{'path': b'a.c', 'directory_index': 0, 'timestamp': 200, 'size': 100}]))]
     for n, d in one:
         V.append((n, d))
     for n, d in v5:
